@@ -40,7 +40,10 @@ Operators == {
   Op("table-only-x", "registry"), Op("table-only-y", "registry"), Op("table-three-points", "registry"), Op("table-not-increasing", "registry"),
   Op("table-repeated-x", "registry"), Op("table-empty-data", "registry"), Op("table-not-finite", "registry"), Op("table-empty-name", "registry"),
   Op("table-named-like-library-function", "registry"),
-  Op("form-bad-signature", "registry"), Op("form-dotted-name", "registry"), Op("form-no-parameters", "registry"), Op("form-reserved-parameter", "registry"), Op("form-parameters-differ-in-case", "registry"), Op("form-parameter-repeated", "registry"), Op("form-numeric-parameter", "registry"),
+  Op("form-bad-signature", "registry"), Op("form-dotted-name", "registry"), Op("form-no-parameters", "registry"), Op("form-reserved-parameter", "registry"), Op("form-parameters-differ-in-case", "registry"), Op("form-parameter-repeated", "registry"),
+  Op("form-named-like-expression-builtin", "registry"), Op("formula-unused-malformed", "registry"), Op("label-not-ascii", "registry"),
+  Op("parameter-overflow", "pair-builder"), Op("trans-second-multi-range", "pair-builder"), Op("spline-endpoint-unevaluable", "pair-builder"),
+  Op("species-not-finite", "eam-builder"), Op("species-key-empty-part", "eam-builder"), Op("formula-library-call-wrong-arity", "evaluate"), Op("form-numeric-parameter", "registry"),
   Op("form-same-label-other-arity", "registry"), Op("form-parameter-named-like-a-form", "registry"), Op("form-label-reserved", "registry"), Op("form-labels-differ-in-case", "registry"),
   Op("form-signature-trailing-text", "registry"),
   Op("missing-pair-section", "pair-builder"), Op("unknown-form", "pair-builder"), Op("unknown-modifier", "pair-builder"), Op("nested-unknown-form", "pair-builder"),
@@ -60,12 +63,12 @@ Operators == {
   Op("formula-unparsable", "evaluate"), Op("formula-undefined-symbol", "evaluate"), Op("formula-call-wrong-arity", "evaluate") }
 
 \* what the unrepaired tree does with an operator when the noticing stage is reached
-Escapes == {"not-text", "edit-placeholder-syntax", "grid-step-underflow", "form-parameter-named-like-a-form", "form-label-reserved", "table-named-like-library-function", "not-ini", "text-before-header", "unclosed-header", "no-delimiter", "placeholder-missing", "placeholder-missing-section", "placeholder-syntax",
+Escapes == {"label-not-ascii", "spline-endpoint-unevaluable", "formula-library-call-wrong-arity", "not-text", "edit-placeholder-syntax", "grid-step-underflow", "form-parameter-named-like-a-form", "form-label-reserved", "table-named-like-library-function", "not-ini", "text-before-header", "unclosed-header", "no-delimiter", "placeholder-missing", "placeholder-missing-section", "placeholder-syntax",
             "pair-key-no-dash", "pair-key-two-dashes", "adp-key-no-dash", "grid-one-row", "rho-one-row", "dlpoly-four-rows",
             "table-only-x", "table-only-y", "table-three-points", "table-not-increasing", "table-repeated-x", "table-empty-data", "table-with-parameters",
             "form-no-parameters", "form-numeric-parameter", "exp-spline-with-parameters", "buck4-spline-without-rmin", "spline-middle-is-modifier",
             "trans-second-is-modifier", "fs-plain-keys", "fs-double-arrow", "species-nonnumeric-number", "species-nonnumeric-mass", "species-float-number"}
-Accepted == {"form-labels-differ-in-case", "pair-key-empty-species", "grid-overflow", "table-not-finite", "table-empty-name", "form-signature-trailing-text", "cutoff-nan", "cutoff-inf", "buck4-spline-rmin-below-detach", "buck4-spline-rmin-above-attach", "buck4-form-rmin-outside"}
+Accepted == {"form-named-like-expression-builtin", "formula-unused-malformed", "parameter-overflow", "trans-second-multi-range", "species-not-finite", "species-key-empty-part", "form-labels-differ-in-case", "pair-key-empty-species", "grid-overflow", "table-not-finite", "table-empty-name", "form-signature-trailing-text", "cutoff-nan", "cutoff-inf", "buck4-spline-rmin-below-detach", "buck4-spline-rmin-above-attach", "buck4-form-rmin-outside"}
 
 VARIABLES op, stage, outcome, fileOpened, table
 vars == <<op, stage, outcome, fileOpened, table>>
